@@ -9,6 +9,7 @@ import (
 	"regexp"
 	"runtime"
 	"strconv"
+	"strings"
 	"sync"
 	"sync/atomic"
 	"time"
@@ -392,6 +393,11 @@ func PoolStuck(t *Tracer, pool interface{}) (bool, *PoolView) {
 	if len(v.LiveWorkers) == 0 || v.Pushed != v.Signalled {
 		return false, v
 	}
+	// a worker that was created but has not reached its loop head yet is
+	// unknown to the trace and will still look for work
+	if wc, ok := pool.(interface{ WorkerCount() int }); ok && wc.WorkerCount() != len(v.LiveWorkers) {
+		return false, v
+	}
 	for g, l := range v.LiveWorkers {
 		p := v.LastPoint[g]
 		if p != "pool.idle.locked" && p != "pool.idle.beforewait" {
@@ -414,4 +420,30 @@ func PoolStuck(t *Tracer, pool interface{}) (bool, *PoolView) {
 		return false, v
 	}
 	return true, v
+}
+
+var gBlock = regexp.MustCompile(`(?m)^goroutine (\d+) `)
+
+// GoStackHas tells whether the current stack of goroutine gid contains all the
+// given substrings (e.g. "sync.(*WaitGroup).Wait" and the name of the API
+// function that is expected to be blocked there).
+func GoStackHas(gid uint64, subs ...string) bool {
+	dump := FullDump()
+	for _, blk := range strings.Split(dump, "\n\n") {
+		m := gBlock.FindStringSubmatch(blk)
+		if m == nil {
+			continue
+		}
+		id, _ := strconv.ParseUint(m[1], 10, 64)
+		if id != gid {
+			continue
+		}
+		for _, s := range subs {
+			if !strings.Contains(blk, s) {
+				return false
+			}
+		}
+		return true
+	}
+	return false
 }
